@@ -291,7 +291,7 @@ func main() {
 	w.Extra["exhaustive_scope"] = fmt.Sprintf("inputs sampled from the scope of %d ancestors x %d alphas x %d betas x 4 modes (names {a,b}/{c}, depth <= 2, every entry kind); for sampled inputs with 1-3 transitions and at most 48 outcome combinations, EVERY combination of outcomes (all prefix-closed sub-trees of old and of new, incl. nil/old/new) is enumerated", len(ancestors), len(sides), len(sides))
 	nEnum, nScope, nRandom := 40, 1000, 700
 	if cfg.Thorough() {
-		nEnum, nScope, nRandom = 1500, 20000, 15000
+		nEnum, nScope, nRandom = 800, 12000, 9000
 	}
 	for i, tries := 0, 0; i < nEnum && tries < 50*nEnum; tries++ {
 		anc := ancestors[r.Intn(len(ancestors))]
